@@ -310,7 +310,12 @@ func (g *progGen) expr(t pty, d int, sc []pbind) string {
 	}
 	switch t {
 	case pInt:
-		switch g.r.Intn(22) {
+		switch g.r.Intn(23) {
+		case 22:
+			// a closure stored in a field that is named like a method of maps: the field wins
+			g.feat("map-field-closure-named-like-method")
+			name := g.pick("get", "size", "map", "string", "isAvail", "put", "accept")
+			return fmt.Sprintf("{x: %s, %s: %s}.%s(%s)", g.arg(pInt, d-1, sc), name, g.fn1(d-1, sc), name, g.arg(pInt, d-1, sc))
 		case 0, 1:
 			return fmt.Sprintf("(%s %s %s)", g.expr(pInt, d-1, sc), g.pick("+", "-", "*"), g.expr(pInt, d-1, sc))
 		case 2:
